@@ -39,10 +39,10 @@ pub fn property() -> Property {
             "linfa's sigmoid clamps its argument to [-35, 35]; the reference does not, the difference (< 7e-16 per probability) is inside the tolerance".into(),
         ],
         subs: vec![
-            prop_sub("minibatch_kmeans", 30000, 240000, |t: Tier| kmeans::strategy(t), kmeans::check).chunks(16),
-            prop_sub("gaussian_nb", 30000, 240000, |t: Tier| nb::strategy(nb::Kind::Gaussian, t), nb::check).chunks(16),
-            prop_sub("multinomial_nb", 24000, 190000, |t: Tier| nb::strategy(nb::Kind::Multinomial, t), nb::check).chunks(16),
-            prop_sub("ftrl", 20000, 160000, |t: Tier| ftrl::strategy(t), ftrl::check).chunks(16),
+            prop_sub("minibatch_kmeans", 30000, 600000, |t: Tier| kmeans::strategy(t), kmeans::check).chunks(16),
+            prop_sub("gaussian_nb", 30000, 600000, |t: Tier| nb::strategy(nb::Kind::Gaussian, t), nb::check).chunks(16),
+            prop_sub("multinomial_nb", 24000, 480000, |t: Tier| nb::strategy(nb::Kind::Multinomial, t), nb::check).chunks(16),
+            prop_sub("ftrl", 20000, 400000, |t: Tier| ftrl::strategy(t), ftrl::check).chunks(16),
         ],
     }
 }
